@@ -54,6 +54,11 @@ type Target struct {
 	Dispatch []Dispatch // switch-dispatch extraction
 	State    map[string][]string // receiver type -> threaded state fields
 	Requires []string   // other generated modules this one refers to
+	Mode     string     // "" (classic) | "abs" (abstract environment mode, see abs.go)
+	Blocks   []Block    // abs mode: bodies of if-statements extracted by anchor
+	Prelude  string     // extra Gallina text emitted after the header (abs mode helpers)
+	Consts   []string   // package-level integer constants emitted as `Definition name : Z := value.`
+	GOARCH   string     // parse the package's files as for this GOARCH (portable variants that amd64 builds exclude)
 }
 
 type Dispatch struct {
@@ -93,7 +98,9 @@ func main() {
 	}
 	imp = importer.ForCompiler(fset, "source", nil)
 	for _, t := range targets {
-		pkgToMod[modPath+"/"+t.Dir] = t.Module
+		if _, dup := pkgToMod[modPath+"/"+t.Dir]; !dup { // several modules may come from one package: the first one owns the package
+			pkgToMod[modPath+"/"+t.Dir] = t.Module
+		}
 	}
 	os.MkdirAll(outDir, 0o755)
 	for _, t := range targets {
@@ -130,8 +137,26 @@ type pkgInfo struct {
 	vars  map[string]*ast.ValueSpec
 }
 
-func loadPkg(dir string) (*pkgInfo, error) {
+var pkgCache = map[string]*pkgInfo{} // several modules may be translated from one package
+
+func loadPkg(dir string) (*pkgInfo, error) { return loadPkgArch(dir, "") }
+
+func loadPkgArch(dir, arch string) (*pkgInfo, error) {
+	if pi, ok := pkgCache[dir+"|"+arch]; ok {
+		return pi, nil
+	}
+	pi, err := loadPkgUncached(dir, arch)
+	if err == nil {
+		pkgCache[dir+"|"+arch] = pi
+	}
+	return pi, err
+}
+
+func loadPkgUncached(dir, arch string) (*pkgInfo, error) {
 	ctx := build.Default
+	if arch != "" {
+		ctx.GOARCH = arch
+	}
 	bp, err := ctx.ImportDir(dir, 0)
 	if err != nil {
 		return nil, err
@@ -192,7 +217,7 @@ func srcOf(n ast.Node) string {
 }
 
 func translateTarget(t Target) (string, error) {
-	pi, err := loadPkg(t.Dir)
+	pi, err := loadPkgArch(t.Dir, t.GOARCH)
 	if err != nil {
 		return "", err
 	}
@@ -204,7 +229,13 @@ func translateTarget(t Target) (string, error) {
 	}
 	sb.WriteString("Import ListNotations.\nLocal Open Scope Z_scope.\n\n")
 
-	tr := &translator{pi: pi, t: t, errCodes: map[string]int{}}
+	tr := &translator{pi: pi, t: t, errCodes: map[string]int{}, effIdx: map[string]int{}, optFuncs: map[string]bool{}}
+	if t.Mode == "abs" {
+		if len(t.Blocks) > 0 {
+			sb.WriteString(absPrelude)
+		}
+		sb.WriteString(t.Prelude)
+	}
 	// error variables of this package: stable codes by sorted name
 	var errNames []string
 	for name, vs := range pi.vars {
@@ -224,6 +255,18 @@ func translateTarget(t Target) (string, error) {
 		sb.WriteString("\n")
 	}
 
+	for _, c := range t.Consts {
+		def, err := tr.constant(c)
+		tr.report(c, nil, err)
+		if err != nil {
+			sb.WriteString("(* go2coq: FAILED constant " + c + ": " + cm(err.Error()) + " *)\n\n")
+			continue
+		}
+		sb.WriteString(def)
+	}
+	if len(t.Consts) > 0 {
+		sb.WriteString("\n")
+	}
 	for _, tb := range t.Tables {
 		def, err := tr.table(tb)
 		tr.report(tb, pi.vars[tb], err)
@@ -243,10 +286,31 @@ func translateTarget(t Target) (string, error) {
 			sb.WriteString("(* go2coq: FAILED " + fn + ": not found *)\n\n")
 			continue
 		}
-		def, err := tr.function(fn, fd)
+		var def string
+		var err error
+		if t.Mode == "abs" {
+			def, err = tr.absFunction(fn, fd)
+		} else {
+			def, err = tr.function(fn, fd)
+		}
 		tr.report(fn, fd, err)
 		if err != nil {
 			sb.WriteString("(* go2coq: FAILED " + fn + ": " + cm(err.Error()) + " *)\n\n")
+			continue
+		}
+		sb.WriteString(def + "\n")
+	}
+	for _, b := range t.Blocks {
+		fd := pi.funcs[b.Func]
+		if fd == nil {
+			tr.report(b.Name, nil, fmt.Errorf("function not found in source"))
+			sb.WriteString("(* go2coq: FAILED block " + b.Name + ": function not found *)\n\n")
+			continue
+		}
+		def, err := tr.absBlock(b, fd)
+		tr.report(b.Name, fd, err)
+		if err != nil {
+			sb.WriteString("(* go2coq: FAILED block " + b.Name + ": " + cm(err.Error()) + " *)\n\n")
 			continue
 		}
 		sb.WriteString(def + "\n")
@@ -305,6 +369,11 @@ type translator struct {
 	resultTys  []types.Type
 	alias      map[string]string // unsafe pointer aliases (ks -> k)
 	tmp        int
+	// abstract environment mode (abs.go)
+	abs      *absCtx
+	effIdx   map[string]int  // effect constants of this module
+	optFuncs map[string]bool // generated definitions whose result is an option (None = panic)
+	pending  string          // constant definitions to be emitted before the current definition
 }
 
 type trErr struct{ msg string }
@@ -556,6 +625,11 @@ func (tr *translator) constOf(e ast.Expr) (string, bool) {
 func (tr *translator) expr(e ast.Expr) string {
 	if c, ok := tr.constOf(e); ok {
 		return c
+	}
+	if tr.abs != nil {
+		if s, ok := tr.absExpr(e); ok {
+			return s
+		}
 	}
 	switch e := e.(type) {
 	case *ast.ParenExpr:
@@ -923,7 +997,7 @@ func (tr *translator) call(e *ast.CallExpr) string {
 				return "(bits_Len64 " + tr.expr(e.Args[0]) + ")"
 			case "math.Float32bits", "math.Float64bits", "math.Float32frombits", "math.Float64frombits":
 				return tr.expr(e.Args[0])
-			case modPath + "/meta.NewError":
+			case modPath + "/meta.NewError", "errors.New", "fmt.Errorf":
 				return "Err_NewError"
 			case "unicode/utf8.ValidString":
 				return "(utf8_valid " + tr.expr(e.Args[0]) + ")"
@@ -951,6 +1025,17 @@ func (tr *translator) call(e *ast.CallExpr) string {
 	}
 	if threaded {
 		fail(e, "state-threaded call %s used inside an expression", srcOf(e))
+	}
+	if tr.abs != nil && recvX != nil {
+		if b, _, isBase := tr.absPath(recvX); isBase && !tr.translatable(tr.typeOf(recvX)) {
+			fail(e, "call of the translated method %s on the abstract object %s (translate the caller in a module where the callee is not listed)", srcOf(e.Fun), b)
+		}
+	}
+	if tr.optFuncs[name] {
+		if tr.abs == nil || !tr.abs.allowOpt {
+			fail(e, "call of the panicking function %s in an unsupported position", srcOf(e.Fun))
+		}
+		tr.abs.allowOpt = false
 	}
 	var args []string
 	if recvX != nil {
@@ -1003,6 +1088,9 @@ func (tr *translator) statePat() []string {
 }
 
 func (tr *translator) retTuple(vals []string) string {
+	if tr.abs != nil {
+		return tr.absRet(vals)
+	}
 	all := append(append([]string{}, vals...), tr.statePat()...)
 	if len(all) == 0 {
 		return "tt"
@@ -1074,6 +1162,11 @@ func (tr *translator) zeroOf(n ast.Node, t types.Type) string {
 func (tr *translator) stmts(list []ast.Stmt, k func() string) string {
 	if len(list) == 0 {
 		return k()
+	}
+	if tr.abs != nil {
+		if s, ok := tr.absStmt(list, k); ok {
+			return s
+		}
 	}
 	s := list[0]
 	rest := func() string { return tr.stmts(list[1:], k) }
@@ -1300,6 +1393,12 @@ func (tr *translator) namedResults(n ast.Node) []string {
 
 func (tr *translator) panicValue(n ast.Node) string {
 	// a panic is modelled as returning zero results with the error result (if any) = Err_PANIC
+	if tr.abs != nil && tr.abs.block {
+		return tr.blockRet("Out_panic")
+	}
+	if tr.abs != nil && tr.abs.optPanic {
+		return "None"
+	}
 	var vals []string
 	hasErr := false
 	for _, t := range tr.resultTys {
@@ -1602,6 +1701,19 @@ func (tr *translator) table(name string) (def string, err error) {
 	}
 	if idx < 0 || idx >= len(vs.Values) {
 		return "", fmt.Errorf("table %s has no initialiser", name)
+	}
+	if tv, isc := tr.pi.info.Types[vs.Values[idx]]; isc && tv.Value != nil && tv.Value.Kind() == constant.String && tr.t.Mode == "abs" {
+		// a string variable used as a lookup table (abs mode): index -> byte
+		str := constant.StringVal(tv.Value)
+		var sb strings.Builder
+		pos := fset.Position(vs.Pos())
+		sb.WriteString(fmt.Sprintf("(* %s:%d  table %s (string) *)\n", pos.Filename, pos.Line, name))
+		sb.WriteString("Definition " + name + " (i : Z) : Z :=\n")
+		for i := 0; i < len(str); i++ {
+			sb.WriteString(fmt.Sprintf("  if i =? %d then %d else\n", i, str[i]))
+		}
+		sb.WriteString("  0.\n")
+		return sb.String(), nil
 	}
 	cl, ok := vs.Values[idx].(*ast.CompositeLit)
 	if !ok {
